@@ -7,6 +7,7 @@ CONSTANTS
   DcmRoutes <- AllDcmRoutes
   RotRoutes <- AllRotRoutes
   ConjRoutes <- AllConjRoutes
+  QuatMethods <- Methods
   MaxDepth = 1000000
 CONSTRAINT Progress
 INVARIANT Faithful
